@@ -33,6 +33,7 @@ META["explanation"] += ' R01.13 the notify function adds 1 to the version on eve
 META["explanation"] += ' R01.4e every Ready(Some) of a subscriber poll path (both flavours) is dominated by the call of the poll leaf. R01.6 / R04.3 accept pure delegation to the sibling that is judged itself (next_now = next_ref_now().clone()).'
 META["explanation"] += " R01.4b the leaf's Ready(Some) guard is observed < version, not `!=` (which also holds after close stored the sentinel 0: the last value would be delivered again)."
 META["explanation"] += ' Shared with C16: R16.6 (an update marked as observed is handed out in the same resumption).'
+META["explanation"] += ' R01.2 hash-helper-is-a-function-of-the-value: the hash helper of set_if_hash_not_eq does not build its hasher from a freshly keyed RandomState (or any other per-call state).'
 
 STATE = "state::ObservableState::<T>::"
 CALL_CLOSURE = r"(FnOnce|FnMut|Fn)(<.*>>?)?::call(_once|_mut)?$"
@@ -356,6 +357,22 @@ def r01_2(ctx, notify):
                 pa, pb = hashed(is_cur), hashed(is_new)
                 # both sides must go through the same helper
                 same_helper = True
+                # .. and that helper is a pure function of the value: two calls with equal values give equal hashes only if they hash
+                # with the same keys. A hasher state created per call from a randomly keyed builder (`RandomState::new()`) differs
+                # between the two calls, so equal values compare "different": every call stores and notifies
+                hs = []
+                for blk2, t2 in b.calls():
+                    g2 = F.local_callee(f, t2)
+                    if g2 is not None and g2.kind == "fn" and g2.built:
+                        hs.append(g2)
+                for g2 in hs:
+                    gb2 = inl(F, g2) or g2.built
+                    rnd = [bl for bl, tt in gb2.calls(r"RandomState::new$|RandomState as std::default::Default>::default$|hash_map::RandomState(::)?<?.*>?::default$|::thread_rng$|::random$|SystemTime::now$|Instant::now$")]
+                    for bl, tt in gb2.calls(r"Default>?::default$"):
+                        if "RandomState" in str((tt.get("extra") or {}).get("full") or "") + str(tt.get("resolved") or ""):
+                            rnd.append(bl)
+                    ctx.verdict(not rnd, "R01.2", g2, "hash-helper-is-a-function-of-the-value", gb2.line_at((rnd[0], 10 ** 6)) if rnd else g2.loc(), "`%s` hashes with fixed keys" % g2.name,
+                                "`%s` builds its hasher from a freshly (randomly) keyed state on every call: the two hashes `%s` compares are computed with different keys, so equal values look different - every call stores, notifies and returns Some(previous), where equal-hash values must change nothing and return None" % (g2.path, name))
             else:
                 pa, pb = is_cur, is_new
             ne = conds.cmp_holds(facts, "Ne", pa, pb)
